@@ -74,7 +74,8 @@ def t1(F, res):
                 n_impl += 1
                 counts[tr] = counts.get(tr, 0) + 1
                 res.add(e3.check_impl_method(F, f, st, fam, ms[f["name"]], "T1", rows,
-                                             method_sem="is_constant" if f["name"] == "is_constant" else None))
+                                             method_sem="is_constant" if f["name"] == "is_constant" else None,
+                                             family_traits=(APPLY, COMPOSITE, NODE)))
     res.count("traversal impl methods", n_impl)
     res.floor("Composite impl methods on ADTs", counts.get(COMPOSITE, 0), 33)
     res.floor("explicit Apply impl methods on ADTs", counts.get(APPLY, 0), 28)
